@@ -37,10 +37,28 @@ def ast_guards(func, node):
     into A, B failing - so nested ifs and one combined condition give the same guards. (Early exits are *not* reflected here;
     see CFG.guards_of.)"""
     out = []
-    for (c, t) in _ast_guards_raw(func, node):
+
+    from . import astq as _a
+    sd = _a.single_defs(func)
+
+    def flat(c, t, depth=0):
         parts = conjuncts(c) if t else disjuncts(c)
         for p_ in parts:
+            # hoisted sub-expressions (`const bool is_base = sigversion == BASE; ... if (is_base || ...)`) stand for their
+            # initialisers; the original node is kept when nothing was hoisted
+            if depth < 2 and p_ is not None and any(x.get("k") == "ref" and x.get("dk") == "local" and x.get("d") in sd for x in _a.walk(p_)):
+                q_ = _a.expand(func, p_)
+                if (conjuncts(q_) if t else disjuncts(q_)) != [q_]:
+                    flat(q_, t, depth + 1)
+                    continue
+                a_, neg = strip_not(q_)
+                if neg and a_ is not None and a_.get("k") == "bin" and a_.get("op") in ("&&", "||"):
+                    out.append((q_, t))
+                    continue
+                p_ = q_
             out.append((p_, t))
+    for (c, t) in _ast_guards_raw(func, node):
+        flat(c, t)
     return out
 
 
